@@ -31,6 +31,7 @@ fn main() {
         Some("map") => { // vh map <fn> <cases.ndjson> <out.ndjson>
             let cases = read_ndjson(&args[3]);
             let f: fn(&Value) -> Value = match args[2].as_str() {
+                "schema" => vh::schemax::schema_check, "introspect" => vh::schemax::introspect, "introspect_invariants" => vh::schemax::introspect_invariants,
                 "cand" => pure::cand_case, "typepair" => pure::type_pair, "typeone" => pure::type_one, "valround" => pure::value_roundtrip,
                 o => { eprintln!("unknown map fn {o}"); std::process::exit(2) }
             };
